@@ -225,6 +225,46 @@ char *bad_OUT7_wrong_key(const unsigned char *path, const unsigned char *k, cons
 char *good_sized(const char *a, const char *b) { char *v = (char*)cJSON_malloc(strlen(a) + strlen(b) + 2); sprintf(v, "%s/%s", a, b); return v; }
 char *good_index(const char *a, size_t i) { char *v = (char*)cJSON_malloc(strlen(a) + 20 + sizeof("/")); sprintf(v, "%s/%lu", a, (unsigned long)i); return v; }
 
+/* ESC2: a text that keeps its own length grows by the encoded length of the name appended to it */
+typedef struct { unsigned char *buffer; size_t length; } fx_path;
+void bad_ESC2_push_key(fx_path * const path, const unsigned char * const key)
+{
+    path->buffer[path->length] = '/';
+    encode_string_as_pointer(path->buffer + path->length + 1, key);
+    path->length += strlen((const char*)key) + 1;
+}
+void good_push_key(fx_path * const path, const unsigned char * const key)
+{
+    const size_t n = pointer_encoded_length(key);
+    path->buffer[path->length] = '/';
+    encode_string_as_pointer(path->buffer + path->length + 1, key);
+    path->length += n + 1;
+}
+
+/* ESC3: a name byte against a token byte */
+cJSON *bad_ESC3_first_byte(const cJSON * const object, const unsigned char * const token)
+{
+    cJSON *member = NULL;
+    for (member = object->child; member != NULL; member = member->next)
+    {
+        const unsigned char * const key = (const unsigned char*)member->string;
+        if ((key != NULL) && (key[0] != token[0])) { continue; }
+        if (compare_pointers(key, token, 1)) { return member; }
+    }
+    return NULL;
+}
+cJSON *good_first_byte_guarded(const cJSON * const object, const unsigned char * const token)
+{
+    cJSON *member = NULL;
+    for (member = object->child; member != NULL; member = member->next)
+    {
+        const unsigned char * const key = (const unsigned char*)member->string;
+        if ((key != NULL) && (token[0] != '~') && (token[0] != '/') && (key[0] != token[0])) { continue; }
+        if (compare_pointers(key, token, 1)) { return member; }
+    }
+    return NULL;
+}
+
 /* LST1 (relinker calls, stale order) */
 static cJSON *sort_list(cJSON *list, const cJSON_bool case_sensitive) { (void)case_sensitive; if (list && list->next) { cJSON *n = list->next; n->next = list; list->next = NULL; n->prev = NULL; list->prev = n; return n; } return list; }
 static void bad_LST1_sort_same_head(cJSON * const object)
